@@ -17,7 +17,7 @@ def static_part(chk):
         g = ring.Geo(ns)
         # a run of consecutive numbers at any rotation (as the ring numbering produces), some slots blank: the order of the numbers
         # along the ring and the order of the values agree, so an implementation may use either
-        s0 = rnd.choice([0, 1, 100, 0x7FFFFFF0, 0xFFFFFF00]); p = rnd.randrange(ns)
+        s0 = rnd.choice([0, 1, 100, 252, 253, 0xFFFB, 0x00FFFFFD, 0x7FFFFFF0, 0xFFFFFF00]); p = rnd.randrange(ns)      # incl. numbers whose low bytes read 0xFF
         seqs = {(p + k) % ns: s0 + k for k in range(ns)}
         pending = False
         hs = {}
